@@ -182,9 +182,9 @@ class SReal:
             return SReal.lift(v.reshape(-1)[0]) if v.dtype != object else SReal.lift(v.item())
         raise TypeError(type(v))
 
-    def _b(self, o, f):
+    def _b(self, o, f, op='?'):
         if isinstance(o, (float, np.floating)) and not math.isfinite(o):
-            return _nonfinite_binop(self, float(o), f)
+            return _nonfinite_binop(self, float(o), op)
         if isinstance(o, np.ndarray) and o.ndim > 0 and o.size != 1: return NotImplemented
         try: o = SReal.lift(o)
         except TypeError: return NotImplemented
@@ -202,14 +202,14 @@ class SReal:
         except TypeError: return NotImplemented
         return SBool(f(self.t, o.t))
 
-    def __add__(s, o): return s._b(o, lambda a, b: a + b)
-    def __radd__(s, o): return s._b(o, lambda a, b: b + a)
-    def __sub__(s, o): return s._b(o, lambda a, b: a - b)
-    def __rsub__(s, o): return s._b(o, lambda a, b: b - a)
-    def __mul__(s, o): return s._b(o, lambda a, b: a * b)
-    def __rmul__(s, o): return s._b(o, lambda a, b: b * a)
-    def __truediv__(s, o): return s._b(o, _div)
-    def __rtruediv__(s, o): return s._b(o, lambda a, b: _div(b, a))
+    def __add__(s, o): return s._b(o, lambda a, b: a + b, 'add')
+    def __radd__(s, o): return s._b(o, lambda a, b: b + a, 'add')
+    def __sub__(s, o): return s._b(o, lambda a, b: a - b, 'sub')
+    def __rsub__(s, o): return s._b(o, lambda a, b: b - a, 'rsub')
+    def __mul__(s, o): return s._b(o, lambda a, b: a * b, 'mul')
+    def __rmul__(s, o): return s._b(o, lambda a, b: b * a, 'mul')
+    def __truediv__(s, o): return s._b(o, _div, 'div')
+    def __rtruediv__(s, o): return s._b(o, lambda a, b: _div(b, a), 'rdiv')
     def __matmul__(s, o): return s.__mul__(o)
     def __rmatmul__(s, o): return s.__rmul__(o)
     def __neg__(s): return SReal(-s.t)
@@ -306,14 +306,17 @@ def _div(a, b):
     return a / b
 
 
-def _nonfinite_binop(s, o, f):
-    # SReal op (nan|inf): follow IEEE on a finite real
+def _nonfinite_binop(s, o, op):
+    """finite symbolic real  op  (nan | +-inf): IEEE result (forks on the sign where it matters)"""
     if math.isnan(o): return float('nan')
-    # evaluate f on representative finite values to find the IEEE result sign; f is one of + - * /
-    try:
-        r1 = f(z3.RealVal(1), z3.RealVal(1))
-    except Exception:
-        r1 = None
+    if op == 'add': return o
+    if op == 'sub': return -o
+    if op == 'rsub': return o
+    if op == 'div': return SReal(z3.RealVal(0))
+    if op in ('mul', 'rdiv'):
+        if bool(s > 0): return o
+        if bool(s < 0): return -o
+        return float('nan') if op == 'mul' else o
     raise Concretised("arithmetic of symbolic value with +-inf")
 
 
